@@ -8,7 +8,7 @@ import model as M
 import runner as R
 
 RULE = ("generated AKAI images (and Roland S-7xx images when the writer is present), each delivered five ways: raw, MODE1/2352 raw sectors, Alcohol MDX "
-        "wrapper, cue sheet with a data track over the raw file, cue sheet with a data track over the 2352 file; image sizes that are and are not "
+        "wrapper, cue sheet with a data track over the raw file (LF, CRLF and CR line ends), cue sheet with a data track over the 2352 file; image sizes that are and are not "
         "multiples of 2048 (trailing junk appended); `ls` at every level (root, every partition, every volume, every file) and the exported tree must "
         "be identical across the five; cue sheets whose tracks are all audio must be CDDA. Function level: the Coq model's detect / wrap_2352 / wrap_mdx / "
         "logical content against is_mdf_image, is_mdx_image, MdfStream, MdxStream and the harness writers on generated and mutated headers. "
@@ -23,6 +23,9 @@ def variants(img):
         "2352": ("i.mdf", w2352, {}),
         "mdx": ("i.mdx", AW.wrap_mdx(img), {}),
         "cue-raw": ("i.cue", R.cue_text("d.bin", [{"mode": "MODE1/2048", "indices": [(1, 0, 0, 0)]}]).encode(), {"d.bin": img}),
+        # the same cue sheet with DOS and classic-Mac line ends
+        "cue-raw-crlf": ("i.cue", R.cue_text("d.bin", [{"mode": "MODE1/2048", "indices": [(1, 0, 0, 0)]}]).replace("\n", "\r\n").encode(), {"d.bin": img}),
+        "cue-raw-cr": ("i.cue", R.cue_text("d.bin", [{"mode": "MODE1/2048", "indices": [(1, 0, 0, 0)]}]).replace("\n", "\r").encode(), {"d.bin": img}),
         "cue-2352": ("i.cue", R.cue_text("d.bin", [{"mode": "MODE1/2352", "indices": [(1, 0, 0, 0)]},
                                                      {"mode": "AUDIO", "indices": [(1, 0, 2, 0)]}]).encode(), {"d.bin": w2352}),
     }
